@@ -127,6 +127,10 @@ func (c *ExecuteCtx) AdjustChunkCache(chooseIdxes []int) {
 		}
 		c.FieldChunkCaches[k] = nv
 	}
+	// The per chunk results are keyed by the first key of the filtered chunk and
+	// hold one value per scanned pair. The chunk handed on contains only the
+	// chosen pairs, a lookup with its first key must not return the unadjusted values
+	clear(c.FieldChunkKeyCaches)
 }
 
 type FinalPlan interface {
